@@ -48,7 +48,7 @@ pub fn paths(t: &Ty, with_each: bool) -> Vec<Vec<Idx>> {
     let steps: Vec<(Idx, Ty)> = match t {
         Ty::Arr(e) => {
             let mut v: Vec<(Idx, Ty)> =
-                [0u32, 1, 3, u32::MAX].iter().map(|n| (Idx::N(*n), (**e).clone())).collect();
+                [0u32, 1, 3, 65536, 65537, u32::MAX].iter().map(|n| (Idx::N(*n), (**e).clone())).collect();
             if with_each {
                 v.push((Idx::Each, (**e).clone()));
             }
@@ -146,7 +146,7 @@ fn single_operand_exprs(u: &crate::uni::Uni, l: &Lhs) -> Vec<Expr> {
 
 pub fn run(tier: Tier, seed: u64) -> i32 {
     let run = Run::new(ID, "exploration", tier, seed);
-    run.assume("container values are drawn from the shape pools (absent, empty, singleton, ragged, non-UTF-8 key); indexes from {0,1,3,u32::MAX,*} / {\"a\",\"b\",\"\",\"zz\",*}");
+    run.assume("container values are drawn from the shape pools (absent, empty, singleton, ragged, non-UTF-8 key); indexes from {0,1,3,65536,65537,u32::MAX,*} / {\"a\",\"b\",\"\",\"zz\",*}");
     let nontrivial = AtomicU64::new(0);
     let programs = AtomicU64::new(0);
     let note = |o: Outcome| {
